@@ -989,6 +989,11 @@ void flexinit (int argc, char **argv)
 
 		    case OPT_EMIT:
 			ctrl.emit = arg;
+			/* Select the back end now, as %option emit does: its
+			 * properties (e.g. whether actions are rewritten)
+			 * are needed while the rules are being read.
+			 */
+			backend_by_name(ctrl.emit);
 			break;
 
 		    case OPT_HEADER_FILE:
